@@ -643,6 +643,12 @@ fn mat_line(m: &Matrix3<f64>) -> String {
 }
 
 fn gen_wred(rng: &mut Rng, count: usize, out: &mut Vec<String>) {
+    // a clean strongly skewed basis: a = (1,0,0), b = (0,1,0), c = (N,0,1)
+    for n in ["1000", "100000", "10000000"] {
+        for alg in ["mink", "niggli", "delaunay"] {
+            out.push(format!("wred {} 1 0 {} 0 1 0 0 0 1", alg, n));
+        }
+    }
     for _ in 0..count {
         let mut b = match rng.range(0, 6) {
             0 => random_basis(rng),
@@ -739,10 +745,11 @@ fn gen_wtab(out: &mut Vec<String>) {
 pub fn gen(tier: &str, seed: u64, out: &str, focus: Option<&str>) {
     let thorough = tier == "thorough";
     let mut rng = Rng::new(seed ^ 0xC08C08);
-    let mut n_wds = if thorough { 60000 } else { 3600 };
-    let mut n_wmag = if thorough { 24000 } else { 1400 };
-    let mut n_wred = if thorough { 6000 } else { 300 };
-    let mut n_wnf = if thorough { 4000 } else { 200 };
+    // per round (checks/c08.py runs one round in the quick tier, up to ten in the thorough tier)
+    let mut n_wds = if thorough { 60000 } else { 10000 };
+    let mut n_wmag = if thorough { 24000 } else { 4000 };
+    let mut n_wred = if thorough { 6000 } else { 500 };
+    let mut n_wnf = if thorough { 4000 } else { 300 };
     if let Some(f) = focus {
         if let Some((kinds, factor)) = f.split_once(':') {
             let k: usize = factor.parse().unwrap_or(3);
